@@ -208,50 +208,12 @@ Definition accepted_despite (r : sreason) (v : N) (bs : list N) : bool :=
 Definition ptype_of (bs : list N) : N := match bs with f :: _ => f / 16 | [] => 0 end.
 Definition pflags_of (bs : list N) : N := match bs with f :: _ => f mod 16 | [] => 0 end.
 
-(* a non-minimal Remaining Length / Property Length / Subscription Identifier is accepted;
-   TotalBytes then differs from the bytes read *)
-Definition kf_varint_noncanonical (v : N) (bs : list N) : bool :=
-  accepted_despite SVarintNonMinimal v bs
-  || (model_accepts v bs &&
-      match bs with
-      | _ :: a :: 0 :: _ => 128 <=? a
-      | _ :: a :: b :: 0 :: _ => (128 <=? a) && (128 <=? b)
-      | _ :: a :: b :: c :: 0 :: _ => (128 <=? a) && (128 <=? b) && (128 <=? c)
-      | _ => false
-      end).
-(* a v5 packet whose body ends before a mandatory Property Length (PUBLISH, SUBSCRIBE, CONNACK, ...)
-   is read as having no properties *)
-Definition kf_proplen_omitted (v : N) (bs : list N) : bool := accepted_despite SShort v bs.
-(* Unpack allocates the declared Remaining Length before reading: more is allocated than the
-   input supplies *)
-Definition kf_alloc_upfront (v : N) (bs : list N) : bool := len bs <? model_stream_alloc 4 v bs.
-(* PUBACK, PUBREC, PUBREL, PUBCOMP: fixed-header flags are not checked *)
-Definition kf_ack_flags (v : N) (bs : list N) : bool :=
-  let t := ptype_of bs in
-  model_accepts v bs &&
-  (((t =? PUBACK) || (t =? PUBREC) || (t =? PUBCOMP)) && negb (pflags_of bs =? 0)
-   || (t =? PUBREL) && negb (pflags_of bs =? 2)).
-(* bytes left over inside the Remaining Length are ignored *)
-Definition kf_trailing (v : N) (bs : list N) : bool := accepted_despite STrailing v bs.
-(* the Property Length may exceed the bytes left: bytes.Buffer.Next clamps *)
-Definition kf_prop_len_overrun (v : N) (bs : list N) : bool := accepted_despite SPropLen v bs.
-Definition kf_retain_handling_3 (v : N) (bs : list N) : bool := accepted_despite SRetainHandling v bs.
-Definition kf_nolocal_shared (v : N) (bs : list N) : bool := accepted_despite SNoLocalShared v bs.
-Definition kf_pid_zero (v : N) (bs : list N) : bool := accepted_despite SPacketId v bs.
-(* an empty Response Topic property is accepted (ValidTopicName("") is true) *)
-Definition kf_name_empty (v : N) (bs : list N) : bool := accepted_despite STopicName v bs.
-(* CONNECT properties may carry PayloadFormat, MessageExpiry, ContentType, ResponseTopic,
-   CorrelationData, WillDelayInterval, which belong to the will properties *)
-Definition kf_connect_props_will (v : N) (bs : list N) : bool :=
-  (ptype_of bs =? CONNECT) && accepted_despite SPropNotAllowed v bs.
-(* AUTH (type 15) accepted on a 3.1 / 3.1.1 connection *)
+(* AUTH (type 15) accepted on a 3.1 / 3.1.1 connection (pinned by TestReadWriteAuthPacket) *)
 Definition kf_auth_v3 (v : N) (bs : list N) : bool := (ptype_of bs =? AUTH) && accepted_despite SReservedType v bs.
-(* (3.1.1) password flag without user name flag accepted *)
-Definition kf_v3_password_without_username (v : N) (bs : list N) : bool :=
-  match model_body v bs with Some (BConnect c) => negb (c_level c =? 5) && c_pflag c && negb (c_uflag c) | _ => false end.
-(* v5 UNSUBSCRIBE checks its filters with ValidTopicFilter, not ValidV5Topic *)
-Definition kf_unsub_share_syntax (v : N) (bs : list N) : bool :=
-  (ptype_of bs =? UNSUBSCRIBE) && (v =? 5) && accepted_despite STopicFilter v bs.
+(* a PUBREL longer than two bytes on a 3.1 / 3.1.1 connection is parsed in the MQTT 5 form
+   (Pubrel carries no protocol version; pinned by TestReadWritePubrelPacket) *)
+Definition kf_pubrel_v3 (v : N) (bs : list N) : bool :=
+  (ptype_of bs =? PUBREL) && negb (v =? 5) && accepted_despite STrailing v bs.
 
 (* ---------------------------------------------------------------- encode oracle (suite cenc) *)
 (* b: the packet value handed to Pack; r: what the implementation produced *)
@@ -289,16 +251,13 @@ Definition utf8_verdict_ok (s : str) (a : tbool) : bool :=
   | TB false => negb (spec_utf8 s) || has_ctl s
   | TBPanic => false
   end.
+(* [MQTT-4.7.3-2]: no null character, also when the UTF-8 check is not requested *)
+Definition no_nul (s : str) : bool := negb (existsb (N.eqb 0) s).
 Definition c06_topic_ok (s : str) (o : topic_obs) : bool :=
   utf8_verdict_ok s (to_utf8 o)
-  && tb_is (to_name1 o) (spec_topic_name s) && tb_is (to_name0 o) (valid_name_spec s)
-  && tb_is (to_filter1 o) (spec_topic_filter s) && tb_is (to_filter0 o) (valid_filter_spec s)
+  && tb_is (to_name1 o) (spec_topic_name s) && tb_is (to_name0 o) (valid_name_spec s && no_nul s)
+  && tb_is (to_filter1 o) (spec_topic_filter s) && tb_is (to_filter0 o) (valid_filter_spec s && no_nul s)
   && tb_is (to_v5 o) (spec_v5_filter s).
-
-(* deviations, on the string *)
-Definition kf_t_name_empty (s : str) : bool := is_empty s.
-(* U+0000: accepted by the topic predicates when they are called directly *)
-Definition kf_t_nul (s : str) : bool := existsb (N.eqb 0) s.
 
 (* ---------------------------------------------------------------- Message sizes (suite cmsg) *)
 (* tb: Message.TotalBytes(v); r: Pack of MessageToPublish (bytes, TotalBytes after Pack) *)
